@@ -16,7 +16,7 @@ from *sessions*; a session is one client connection to the proxy:
   (virtual times and step-hook boundaries), counters read at the end.
 
 Every route holds at least one queue (gen/net_gen.py's configurations)."""
-import random
+import random, re
 from net_gen import Cfg, Prog, ep
 
 PROXY_PORT = 1080
@@ -70,6 +70,13 @@ class World:
         self.cfg = Cfg(rng, nnodes=3 + (1 if nclient_nodes > 1 else 0), nat_p=(0.25 if nat else 0.0),
                        drop_p=(0.3 if lossy else 0.0), v6_p=0.0, multi_p=0.0,
                        small_cap_p=(0.4 if lossy else 0.05), pcap=False)
+        if not lossy:
+            # a loss-free world has no bounded queue at all (the monitor's completeness clauses — every
+            # reply / payload byte arrives, a rejected client sees end-of-file, counters' lower bound, UDP
+            # delivery — are demanded exactly when no hop can lose a packet)
+            self.cfg.lines = [re.sub(r" cap=\d+$", " cap=0", l) if l.startswith("hop ") and " queue " in l else l
+                              for l in self.cfg.lines]
+        self.lossy = lossy
         # the proxy's own address is never behind a NAT (its replies name it)
         self.P = Prog(rng)
         self.cli_ip = "10.0.0.1"; self.px_ip = "10.0.1.1"; self.tg_ip = "10.0.2.1"
